@@ -163,9 +163,12 @@ def run(ctx):
                                     modes=c["modes"]), separators=(",", ":")) + "\n")
     binary = vf.build_gotest(ctx, ".", ["c04"])
     vp = os.path.join(ctx.tmp, "c04_views.ndjson")
-    rc, out = vf.run_gotest(ctx, binary, "^TestVfC04Run$", env={"VF_C04_CASES": cp, "VF_C04_VIEWS": vp}, timeout=1500)
+    rc, out = vf.run_gotest(ctx, binary, "^TestVfC04Run$", env={"VF_C04_CASES": cp, "VF_C04_VIEWS": vp},
+                            timeout=240 if quick else 900, check=False)
     m = re.search(r"^VFC04SUMMARY (.*)$", out, re.M)
     if not m:
+        if "VFC04ABORT" in out:
+            raise vf.Inconclusive("harness aborted by its memory watchdog: " + re.search(r"VFC04ABORT[^\n]*", out).group(0))
         raise vf.Inconclusive("harness gave no summary (rc=%s):\n%s" % (rc, out[-3000:]))
     summ = json.loads(m.group(1))
     ctx.log("harness: %s" % summ)
